@@ -33,7 +33,8 @@ func (p *prop) Rule() string {
 		"edges {0,1,2,65535,65536,65537,131072,1048575}, interleaved with fragment.rows(start, column?, ids?, limit?) and minRow/maxRow(filter?); " +
 		"srv cases: 8-22 writes (PQL Set/Clear, timestamped Set on a time field over days 0-4, API Import, roaring import) on fields a b c t over rows 0-3, columns 0-4, shards 0-2, " +
 		"then Rows(previous, limit, column, from, to), GroupBy over 1-3 fields (previous tuple, limit, offset, filter, child limit/column), MinRow/MaxRow(filter) " +
-		"and paging loops to exhaustion. A case is non-trivial when it has at least 3 rows with bits in some field/fragment and at least one read"
+		"and paging loops to exhaustion; group cases (1 in 5): GroupBy over 3-4 fields a b c d on 2-3 shards where every row of a middle field lives on one or two shards only, " +
+		"read unpaged, by previous-driven paging loops with limit 1-3, with arbitrary previous tuples (values up to two past the last row) and by offset loops. A case is non-trivial when it has at least 3 rows with bits in some field/fragment and at least one read"
 }
 
 var fragRowsPool = []int{0, 1, 2, 3, 5, 9}
@@ -239,10 +240,95 @@ func genSrvCase(r *vh.Rng) vh.Case {
 	return vh.Case{Lines: lines, Nontrivial: nw >= 10}
 }
 
+// genGroupCase aims at the group iterator: GroupBy over 3-4 fields on 2-3 shards where the rows
+// of the middle fields exist on only some shards, so that a page ends on a group whose middle row
+// is missing (or beyond the last row) on another shard: there Seek runs off the end, Next wraps to a
+// smaller row and the deeper fields must restart. Read with previous-driven paging loops (limit 1-3)
+// and with arbitrary previous tuples (past-the-end and non-existing rows included).
+func genGroupCase(r *vh.Rng) vh.Case {
+	lines := []string{"srv"}
+	k := r.Pick(3, 3, 3, 4)
+	nrows := r.Pick(3, 4)
+	if k == 4 {
+		nrows = r.Pick(2, 3)
+	}
+	all := []string{"a", "b", "c", "d"}[:k]
+	nsh := r.Pick(2, 3, 3)
+	for fi, f := range all {
+		middle := fi > 0 && fi < k-1
+		bits := make([][]string, nsh)
+		for row := 0; row < nrows; row++ {
+			if !middle && r.Chance(1, 6) {
+				continue // a hole in the first / last field
+			}
+			var shs []int
+			switch {
+			case middle && r.Chance(3, 4):
+				shs = []int{r.Intn(nsh)} // the row lives on one shard only
+			case middle:
+				shs = []int{r.Intn(nsh), r.Intn(nsh)}
+			default:
+				for sh := 0; sh < nsh; sh++ {
+					if r.Chance(3, 4) {
+						shs = append(shs, sh)
+					}
+				}
+			}
+			for _, sh := range shs {
+				for c := 0; c < 3; c++ {
+					if r.Chance(2, 3) {
+						bits[sh] = append(bits[sh], fmt.Sprintf("%d:%d", row, c))
+					}
+				}
+			}
+		}
+		for sh := range bits {
+			if len(bits[sh]) > 0 {
+				lines = append(lines, fmt.Sprintf("%s %s %d %s", r.PickS("imp", "imp", "roar"), f, sh, strings.Join(bits[sh], ",")))
+			}
+		}
+	}
+	flt := "-"
+	if r.Chance(1, 4) {
+		flt = "g"
+		for sh := 0; sh < nsh; sh++ {
+			lines = append(lines, fmt.Sprintf("gset %d %d", sh, r.Intn(3)), fmt.Sprintf("gset %d %d", sh, r.Intn(3)))
+		}
+	}
+	fields := strings.Join(all, ",")
+	if r.Chance(1, 5) {
+		perm := r.Perm(k)
+		fs := make([]string, k)
+		for i, j := range perm {
+			fs[i] = all[j]
+		}
+		fields = strings.Join(fs, ",")
+	}
+	lines = append(lines, fmt.Sprintf("groupby %s prev=- limit=- offset=- filter=%s climit=- ccol=-", fields, flt))
+	lines = append(lines, fmt.Sprintf("pagegroup %s limit=%d filter=%s", fields, r.Range(1, 3), flt))
+	nr := r.Range(2, 4)
+	for i := 0; i < nr; i++ {
+		ps := make([]string, k)
+		for j := range ps {
+			ps[j] = strconv.Itoa(r.Intn(nrows + 2)) // nrows and nrows+1 are past the end
+		}
+		lines = append(lines, fmt.Sprintf("groupby %s prev=%s limit=%s offset=- filter=%s climit=- ccol=-", fields,
+			strings.Join(ps, "."), optS(r, 1, 2, func() string { return strconv.Itoa(r.Range(1, 4)) }), flt))
+	}
+	if r.Chance(1, 2) {
+		lines = append(lines, fmt.Sprintf("pageoffset %s limit=%d filter=%s", fields, r.Range(2, 4), flt))
+	}
+	return vh.Case{Lines: lines, Nontrivial: true}
+}
+
 func (p *prop) Gen(r *vh.Rng, tier string, n int) []vh.Case {
 	var cases []vh.Case
 	for k := 0; k < n; k++ {
 		cr := r.Fork()
+		if cr.Chance(1, 5) {
+			cases = append(cases, genGroupCase(cr))
+			continue
+		}
 		if cr.Chance(1, 3) {
 			cases = append(cases, genSrvCase(cr))
 		} else {
@@ -255,9 +341,36 @@ func (p *prop) Gen(r *vh.Rng, tier string, n int) []vh.Case {
 // ---------- execution ----------
 
 type caseState struct {
-	frag  *pilosa.VerifC16Frag
-	dir   string
-	index string
+	frag   *pilosa.VerifC16Frag
+	dir    string
+	index  string
+	needed map[string]bool
+}
+
+// neededFields lists the fields a case mentions.
+func neededFields(lines []string) map[string]bool {
+	isF := func(w string) bool { return w == "a" || w == "b" || w == "c" || w == "d" || w == "t" }
+	m := map[string]bool{}
+	for _, l := range lines {
+		ws := strings.Fields(l)
+		for i, w := range ws {
+			switch {
+			case i == 0 && w == "tset":
+				m["t"] = true
+			case i == 0 && w == "gset", w == "filter=g":
+				m["g"] = true
+			case i == 1 && isF(w):
+				m[w] = true
+			case i == 1 && strings.Contains(w, ","):
+				for _, q := range strings.Split(w, ",") {
+					if isF(q) {
+						m[q] = true
+					}
+				}
+			}
+		}
+	}
+	return m
 }
 
 func parseBits(s string) (rows, cols []uint64) {
@@ -304,7 +417,7 @@ func showGCs(gs []pilosa.GroupCount) string {
 
 func (p *prop) Exec(lines []string) []string {
 	outs := make([]string, len(lines))
-	st := &caseState{}
+	st := &caseState{needed: neededFields(lines)}
 	t0 := time.Now()
 	defer func() {
 		if st.dir != "" {
@@ -399,13 +512,19 @@ func (p *prop) execLine(st *caseState, l string) string {
 		if _, err := p.s.API.CreateIndex(ctx, st.index, pilosa.IndexOptions{}); err != nil {
 			return "err:create-index"
 		}
-		for _, f := range []string{"a", "b", "c", "g"} {
+		// only the fields the case mentions are created (field creation dominates the cost of a case)
+		for _, f := range []string{"a", "b", "c", "d", "g"} {
+			if !st.needed[f] {
+				continue
+			}
 			if _, err := p.s.API.CreateField(ctx, st.index, f, pilosa.OptFieldTypeSet("ranked", 100)); err != nil {
 				return "err:create-field"
 			}
 		}
-		if _, err := p.s.API.CreateField(ctx, st.index, "t", pilosa.OptFieldTypeTime("D")); err != nil {
-			return "err:create-field"
+		if st.needed["t"] {
+			if _, err := p.s.API.CreateField(ctx, st.index, "t", pilosa.OptFieldTypeTime("D")); err != nil {
+				return "err:create-field"
+			}
 		}
 		vh.Count("case-srv")
 		return "ok"
@@ -550,7 +669,7 @@ func (p *prop) srvLine(st *caseState, ws []string) string {
 		}
 		return v
 	}
-	isField := func(s string) bool { return s == "a" || s == "b" || s == "c" || s == "t" }
+	isField := func(s string) bool { return s == "a" || s == "b" || s == "c" || s == "d" || s == "t" }
 	switch {
 	case (ws[0] == "set" || ws[0] == "clear") && len(ws) == 5 && isField(ws[1]) && ws[1] != "t":
 		name := "Set"
@@ -623,7 +742,7 @@ func (p *prop) srvLine(st *caseState, ws []string) string {
 			pages++
 			all = append(all, page...)
 			prev = strconv.FormatUint(page[len(page)-1], 10)
-			if pages > 80 {
+			if pages > 300 {
 				return "err:fuel"
 			}
 		}
@@ -674,7 +793,7 @@ func (p *prop) srvLine(st *caseState, ws []string) string {
 				prev[i] = strconv.FormatUint(fr.RowID, 10)
 			}
 			off += lim
-			if pages > 80 {
+			if pages > 300 {
 				return "err:fuel"
 			}
 		}
